@@ -888,6 +888,9 @@ func c12RowsUnconditional(c *Ctx) {
 			}
 			n++
 			deps := pd.ControlDepsTransitive(r.At.Block())
+			if fn.Name() == "init" && fn.Synthetic != "" {
+				deps = nil // a package-level table: the package initialiser runs once (its only branch is the init guard)
+			}
 			c.R.Check(len(deps) == 0, "R-rows-unconditional", sprintf("row %q of the table built in %s", r.Method, fname(fn)), c.Pos(r.Pos),
 				"installed on every path",
 				sprintf("%s installs the row for %q only on some paths: whether the method is served then depends on run-time state, and an entry registered while serving is answered with 'method not found'", fname(fn), r.Method))
